@@ -60,7 +60,8 @@ func c14oracle(spec string) (*c14set, bool) {
 							prefix = ones
 						}
 					}
-				} else if n, err := strconv.Atoi(spec[i+1:]); err == nil && n >= 0 && n <= bits {
+				} else if n, err := strconv.Atoi(spec[i+1:]); err == nil && n >= 0 && n <= bits && spec[i+1] >= '0' && spec[i+1] <= '9' {
+					// a prefix length is a plain decimal number: "/+8" and "/-0" are not CIDR notation (net.ParseCIDR rejects them too)
 					prefix = n
 				}
 				if prefix >= 0 {
